@@ -17,7 +17,7 @@ from fractions import Fraction
 
 from . import common, pure, heapdiff
 
-PROOFS = ["proofs/SampleProofs.v", "models/Sample.v", "proofs/HeapProofs.v", "lib/Heap.v",
+PROOFS = ["proofs/SampleProofs.v", "models/Sample.v", "models/SampleSeq.v", "proofs/SampleSeqProofs.v", "proofs/HeapProofs.v", "lib/Heap.v",
           "models/SampleProb.v", "proofs/SampleProbProofs.v", "proofs/SampleProbPair.v", "proofs/SampleProbLink.v"]
 
 # The theorems of the second part of props/C20.v (distribution clause, ideal real-valued model)
@@ -296,6 +296,321 @@ def gen(rng, tier):
     return streams
 
 
+# ---------------------------------------------------------------- call sequences (c20Q)
+# "State left behind by an earlier call (including one that panicked) must not influence a
+# later call": sequences of calls made by ONE goroutine of ONE process, each under its own
+# recover(); calls with valid arguments, calls whose getWeight callback panics at index pj,
+# calls with invalid arguments.  Model: models/SampleSeq.v (smp_run_calls); theorems
+# c20_calls_history_independent / c20_calls_valid_meet_spec / c20_sample_cb_panics.
+def seq_pre(seed, k, n, pj, ws):
+    return (seed, k, n, pj, list(ws))
+
+
+def build_seq_cases(binary, seqs):
+    """seqs: list of lists of (seed, k, n, pj, ws).  pass 1 (reference keys) per call, then one
+    c20Q line per sequence."""
+    pres = []
+    for sq in seqs:
+        for (seed, k, n, pj, ws) in sq:
+            pres.append("c20pre %d %d %d %s" % (seed, k, n, " ".join(ws)))
+    built = build_cases(binary, pres)
+    out = []
+    pos = 0
+    for sq in seqs:
+        parts = []
+        for (seed, k, n, pj, ws) in sq:
+            c, _ = built[pos]
+            pos += 1
+            t = c.split()          # c20 seed k n W ws R ranks
+            parts.append(" ".join(t[1:4] + [str(pj)] + t[4:]))
+        out.append("c20Q " + " | ".join(parts))
+    return out
+
+
+def seq_calls(case):
+    """-> list of (single-call case line 'c20 seed k n W .. R ..', pj)"""
+    body = case.split(" ", 1)[1] if " " in case else ""
+    res = []
+    for part in body.split(" | "):
+        t = part.split()
+        if len(t) < 5:
+            continue
+        res.append(("c20 " + " ".join(t[0:3] + t[4:]), int(t[3])))
+    return res
+
+
+def call_valid(single, pj):
+    seed, k, n, ws, ranks = case_params(single)
+    return 1 <= k <= n and (pj < 0 or pj >= n)
+
+
+def parse_seq_model(part):
+    part = part.strip()
+    if part.startswith("PANIC"):
+        return ("panic", None, int(part.split("calls=")[1].split()[0]))
+    if part.startswith("r="):
+        d = dict(x.split("=", 1) for x in part.split())
+        s = d["r"].strip("[]")
+        return ("ok", [int(x) for x in s.split(",")] if s else [], int(d["calls"]))
+    return None
+
+
+def parse_seq_impl(part):
+    part = part.strip()
+    if part.startswith("PANIC"):
+        toks = part.split()
+        d = dict(x.split("=", 1) for x in toks[1:3] if "=" in x)
+        return ("panic", None, int(d.get("calls", "-1")))
+    pi = parse_impl(part)
+    if pi is None:
+        return None
+    return ("ok", pi[0], pi[2])
+
+
+def compare_seq(case, model, impl):
+    calls = seq_calls(case)
+    ms, is_ = model.split(" | "), impl.split(" | ")
+    if model.startswith("MODEL-EXN") or len(ms) != len(calls):
+        return "model failed: " + model[:120]
+    if len(is_) != len(calls):
+        return "implementation gave %d results for %d calls: %s" % (len(is_), len(calls), impl[:160])
+    for idx, ((single, pj), m, i) in enumerate(zip(calls, ms, is_)):
+        if i.startswith("RANK-MISMATCH") or "HARNESS" in i:
+            return "harness (call %d): %s" % (idx, i[:160])
+        pm, pi = parse_seq_model(m), parse_seq_impl(i)
+        if pm is None or pi is None:
+            return "call %d: unparsable result (model %s, impl %s)" % (idx, m[:60], i[:60])
+        if pm[0] != pi[0]:
+            return "call %d of the sequence: panic behaviour differs (model %s, implementation %s)" % (
+                idx, "panics" if pm[0] == "panic" else "returns", "panics" if pi[0] == "panic" else "returns")
+        if pm[2] != pi[2]:
+            return "call %d of the sequence: number of getWeight invocations differs (model %d, implementation %d)" % (idx, pm[2], pi[2])
+        if pm[0] == "ok":
+            full = parse_impl(i.strip())
+            if full and ambiguous(full[1]):
+                continue
+            if pm[1] != pi[1]:
+                return "call %d of the sequence: returned index slice differs (model %s, implementation %s)" % (idx, pm[1], pi[1])
+    return None
+
+
+def monitor_seq(case, impl):
+    """the property text on EVERY valid call of the sequence (valid arguments, in-domain weights,
+    callback does not panic), whatever came before it"""
+    calls = seq_calls(case)
+    is_ = impl.split(" | ")
+    if len(is_) != len(calls):
+        return None
+    for idx, ((single, pj), i) in enumerate(zip(calls, is_)):
+        if not call_valid(single, pj):
+            continue
+        if i.strip().startswith("CLOBBERED"):
+            return ("aliasing", "call %d of the sequence: %s" % (idx, i.strip()[:200]))
+        mf = monitor(single, i.strip())
+        if mf is not None:
+            kinds = []
+            for (s2, p2) in calls[:idx]:
+                sd, k2, n2, _, _ = case_params(s2)
+                kinds.append("valid" if call_valid(s2, p2) else ("callback-panic@%d" % p2 if 1 <= k2 <= n2 else "invalid-args"))
+            return (mf[0], "call %d of the sequence (after: %s): %s" % (idx, ",".join(kinds) or "nothing", mf[1]))
+    return None
+
+
+def nontrivial_seq(case, model):
+    calls = seq_calls(case)
+    return len(calls) >= 2 and any(call_valid(s, p) for s, p in calls[1:])
+
+
+def gen_seq(rng, tier):
+    """sequences of (seed, k, n, pj, ws)"""
+    quick = tier == "quick"
+    streams = []
+
+    def call(k, n, pj, kind="int"):
+        return seq_pre(rng.range(0, 1 << 62), k, n, pj, gen_weights(rng, max(n, 0), kind) if n <= 4096 else [])
+
+    # 1. bounded-exhaustive: one call that panics in its callback at index pj (all k1 <= n1 <= N,
+    #    all pj < n1), followed by one valid call (all k2 <= n2 <= N)
+    N = 4 if quick else 6
+    ex = []
+    for n1 in range(1, N + 1):
+        for k1 in range(1, n1 + 1):
+            for pj in range(0, n1):
+                for n2 in range(1, N + 1):
+                    for k2 in range(1, n2 + 1):
+                        ex.append([call(k1, n1, pj), call(k2, n2, -1, rng.choice(["int", "equal-small", "skewed"]))])
+    streams.append(("seq-callback-panic-then-valid-exhaustive", ex))
+    # 2. a valid call followed by a valid call of a different shape (larger / smaller k and n)
+    vv = []
+    M = 5 if quick else 8
+    for n1 in range(1, M + 1):
+        for k1 in range(1, n1 + 1):
+            for n2 in range(1, M + 1):
+                for k2 in range(1, n2 + 1):
+                    vv.append([call(k1, n1, -1), call(k2, n2, -1, rng.choice(["int", "prob", "tiny"]))])
+    streams.append(("seq-valid-then-valid-exhaustive", vv))
+    # 3. an invalid-argument call (every small invalid (k, n)) followed by a valid call
+    iv = []
+    for k1 in range(-2, 6):
+        for n1 in range(-2, 5):
+            if not (1 <= k1 <= n1):
+                for (k2, n2) in ((1, 1), (1, 3), (2, 3), (3, 3), (2, 7)):
+                    iv.append([call(k1, n1, -1), call(k2, n2, -1)])
+    streams.append(("seq-invalid-args-then-valid", iv))
+    # 4. long random sequences mixing all kinds of calls and sizes
+    rnd = []
+    cnt = 400 if quick else 6000
+    for _ in range(cnt):
+        sq = []
+        for _ in range(rng.range(3, 12)):
+            n = rng.choice([1, 2, 3, 5, 7, 16, 33, rng.range(1, 64)])
+            k = rng.choice([1, n, max(1, n - 1), rng.range(1, n)])
+            what = rng.below(10)
+            if what < 5:
+                sq.append(call(k, n, -1, rng.choice(KINDS)))
+            elif what < 8:
+                sq.append(call(k, n, rng.choice([0, n - 1, rng.below(n), min(n - 1, k), max(0, k - 1)]), rng.choice(KINDS)))
+            elif what < 9:
+                sq.append(call(rng.choice([n + 1, 0, -1, n + rng.range(1, 50)]), n, rng.choice([-1, 0]), "int"))
+            else:
+                sq.append(call(k, n, n + rng.range(0, 3), "int"))     # panic index never asked for
+        sq.append(call(rng.range(1, 5), rng.range(5, 40), -1, rng.choice(KINDS)))
+        rnd.append(sq)
+    streams.append(("seq-random-mixed", rnd))
+    return streams
+
+
+# ---------------------------------------------------------------- overlapping calls (c20N, c20G)
+# c20N: the outer call's getWeight makes an INNER call when asked for index j (two-pass protocol
+# with the nested draw order replayed); model: the two stand-alone answers (a call is a pure function
+# of its arguments and key order; nothing a callback does can reach the call in progress).
+# c20G: goroutines calling concurrently on private weights; the shared global generator makes the
+# draws of a single call irreproducible, so: implementation + monitors only (length, range,
+# distinct, permutation) -- no model comparison, no top-k.
+def build_nested_cases(binary, pres):
+    """pres: list of (seed, k, n, j, k2, n2, ws, ws2)"""
+    lines = ["c20keysN %d %d %d %d W %s W2 %s" % (seed, n, j, n2, " ".join(ws), " ".join(ws2))
+             for (seed, k, n, j, k2, n2, ws, ws2) in pres]
+    outs = common.run_impl(binary, lines) if lines else []
+    cases = []
+    for (seed, k, n, j, k2, n2, ws, ws2), o in zip(pres, outs):
+        if not o.startswith("keys="):
+            raise RuntimeError("nested reference-key replay failed: " + o[:200])
+        d = dict(x.split("=", 1) for x in o.split())
+        keys = [float(x) for x in d["keys"].split(",")]
+        ikeys = [float(x) for x in d["ikeys"].split(",")]
+        cases.append("c20N %d %d %d %d %d %d W %s R %s W2 %s R2 %s" % (
+            seed, k, n, j, k2, n2, " ".join(ws), " ".join(map(str, signed_ranks(keys))),
+            " ".join(ws2), " ".join(map(str, signed_ranks(ikeys)))))
+    return cases
+
+
+def nested_parts(case):
+    """-> (outer single-call case, inner single-call case, j)"""
+    t = case.split()
+    seed, k, n, j, k2, n2 = [int(x) for x in t[1:7]]
+    pr, pw2, pr2 = t.index("R"), t.index("W2"), t.index("R2")
+    outer = "c20 %d %d %d W %s R %s" % (seed, k, n, " ".join(t[8:pr]), " ".join(t[pr + 1:pw2]))
+    inner = "c20 %d %d %d W %s R %s" % (seed, k2, n2, " ".join(t[pw2 + 1:pr2]), " ".join(t[pr2 + 1:]))
+    return outer, inner, j
+
+
+def nested_impl_parts(impl):
+    if not impl.startswith("r="):
+        return None
+    d = dict(x.split("=", 1) for x in impl.split())
+    return ("r=%s keys=%s calls=%s" % (d["r"], d["keys"], d["calls"]),
+            "r=%s keys=%s calls=%s" % (d["ir"], d["ikeys"], d["icalls"]))
+
+
+def compare_nested(case, model, impl):
+    outer, inner, j = nested_parts(case)
+    if impl.startswith("RANK-MISMATCH") or impl.startswith("NONDETERMINISTIC") or "HARNESS" in impl:
+        return "harness: " + impl[:200]
+    if not model.startswith("r="):
+        return "model failed: " + model[:100]
+    md = dict(x.split("=", 1) for x in model.split())
+    ip = nested_impl_parts(impl)
+    if ip is None:
+        return "outer call with a nested call inside getWeight(%d): implementation gave no result (%s)" % (j, impl[:160])
+    for name, single, m, i in (("outer", outer, md["r"], ip[0]), ("inner", inner, md["ir"], ip[1])):
+        note = compare(single, "PANIC" if m == "PANIC" else "r=" + m, i)
+        if note:
+            return "%s call (inner call made from inside the outer call's getWeight(%d)): %s" % (name, j, note)
+    return None
+
+
+def monitor_nested(case, impl):
+    outer, inner, j = nested_parts(case)
+    ip = nested_impl_parts(impl)
+    if ip is None:
+        if impl.startswith("PANIC") and "HARNESS" not in impl:
+            return ("panic", "outer call with a nested call inside getWeight(%d) panicked: %s" % (j, impl[:160]))
+        return None
+    for name, single, i in (("outer", outer, ip[0]), ("inner", inner, ip[1])):
+        mf = monitor(single, i)
+        if mf:
+            return (mf[0], "%s call (inner call made from inside the outer call's getWeight(%d)): %s" % (name, j, mf[1]))
+    return None
+
+
+def gen_nested(rng, tier):
+    quick = tier == "quick"
+    pres = []
+    # bounded-exhaustive: all outer (k, n) <= N, every j < n, a few inner shapes
+    N = 4 if quick else 6
+    for n in range(1, N + 1):
+        for k in range(1, n + 1):
+            for j in range(n):
+                for (k2, n2) in ((1, 1), (1, 3), (2, 3), (3, 3), (k, n), (2, 6)):
+                    if 1 <= k2 <= n2:
+                        pres.append((rng.range(0, 1 << 62), k, n, j, k2, n2,
+                                     gen_weights(rng, n, rng.choice(["int", "skewed"])), gen_weights(rng, n2, rng.choice(["int", "equal-small"]))))
+    for _ in range(300 if quick else 5000):
+        n = rng.choice([2, 3, 7, 16, 33, rng.range(1, 64)])
+        k = rng.choice([1, n, max(1, n - 1), rng.range(1, n)])
+        n2 = rng.choice([1, 2, 5, 16, rng.range(1, 64)])
+        k2 = rng.choice([1, n2, rng.range(1, n2)])
+        pres.append((rng.range(0, 1 << 62), k, n, rng.choice([0, n - 1, rng.below(n), min(n - 1, k)]), k2, n2,
+                     gen_weights(rng, n, rng.choice(KINDS)), gen_weights(rng, n2, rng.choice(KINDS))))
+    return pres
+
+
+def monitor_conc(case, impl):
+    parts = case.split(" | ")
+    outs = impl.split(" | ")
+    subs = parts[1:]
+    if len(outs) != len(subs):
+        return ("panic", "no result for the concurrent case: " + impl[:200])
+    for g, (sub, o) in enumerate(zip(subs, outs)):
+        t = sub.split()
+        k, n, ws = int(t[0]), int(t[1]), t[3:]
+        single = "c20 0 %d %d W %s R %s" % (k, n, " ".join(ws), " ".join(["0"] * n))
+        for rno, r in enumerate(o.split(";")):
+            mf = monitor(single, r if r.startswith("PANIC") else r + " keys= calls=%d" % n)
+            if mf:
+                return (mf[0], "goroutine %d of %d (call %d, private weights, concurrent with the others): %s" % (g, len(subs), rno, mf[1]))
+    return None
+
+
+def run_concurrent(chk, binary, rng, tier):
+    cases = []
+    for _ in range(80 if tier == "quick" else 1000):
+        subs = []
+        for _ in range(rng.choice([2, 3, 4, 8])):
+            n = rng.choice([1, 2, 3, 7, 16, rng.range(1, 40)])
+            k = rng.choice([1, n, max(1, n - 1), rng.range(1, n)])
+            subs.append("%d %d W %s" % (k, n, " ".join(gen_weights(rng, n, rng.choice(KINDS)))))
+        cases.append("c20G %d %d | %s" % (rng.choice([1, 1, 2, 0]), rng.choice([1, 3, 6]), " | ".join(subs)))
+    impl = common.run_impl(binary, cases)
+    for c, i in zip(cases, impl):
+        chk.count_case("concurrent-private-weights(impl+monitor)", c, True)
+        mf = monitor_conc(c, i)
+        if mf:
+            chk.monitor_fail(mf[0], c, i[:400], mf[1])
+    chk.cov["concurrent_calls"] = dict(cases=len(cases), kind="implementation + monitors only (shared generator: draws not reproducible)")
+
+
 STAT_VECTORS = [
     ("integers", ["1", "2", "3", "4"]),
     ("seven-equal-1e-3 (D9 input)", ["0.001"] * 7),
@@ -435,6 +750,17 @@ def run(chk):
             corpus = [c for c in pure.corpus_cases("C20") if c.startswith("c20pre")]
             pre_streams = [("corpus", corpus)] + gen(chk.rng, chk.tier)
             cases = run_sampling_streams(chk, binary, pre_streams)
+            # call sequences in one goroutine (earlier calls, also panicking ones, must leave nothing behind)
+            seq_streams = [(name, build_seq_cases(binary, sqs)) for name, sqs in gen_seq(chk.rng.fork(), chk.tier)]
+            corpus_seq = [c for c in pure.corpus_cases("C20") if c.startswith("c20Q")]
+            nseq = pure.run_streams(chk, binary, [("corpus-seq", corpus_seq)] + seq_streams, compare_seq, monitor_seq, nontrivial_seq)
+            # overlapping calls: an inner call made from inside getWeight; goroutines on private weights
+            ncs = build_nested_cases(binary, gen_nested(chk.rng.fork(), chk.tier))
+            corpus_n = [c for c in pure.corpus_cases("C20") if c.startswith("c20N")]
+            pure.run_streams(chk, binary, [("corpus-nested", corpus_n), ("nested-call-inside-getWeight", ncs)], compare_nested, monitor_nested,
+                             lambda case, model: model.startswith("r="))
+            run_concurrent(chk, binary, chk.rng.fork(), chk.tier)
+            chk.cov["call_sequences"] = dict(sequences=nseq, calls=sum(len(seq_calls(c)) for _, cs in seq_streams for c in cs))
             # canary on the corpus witnesses
             canary(chk, binary, cases[:len(corpus)])
             # Heap.v against the real heap implementations
@@ -481,6 +807,18 @@ def search(chk):
             mf = monitor(c, i)
             if mf:
                 chk.monitor_fail(mf[0], c, i, mf[1])
+        for _, sqs in gen_seq(rng.fork(), "quick"):
+            qc = build_seq_cases(binary, sqs)
+            for c, i in zip(qc, common.run_impl(binary, qc)):
+                mf = monitor_seq(c, i)
+                if mf:
+                    chk.monitor_fail(mf[0], c, i, mf[1])
+        ncs = build_nested_cases(binary, gen_nested(rng.fork(), "quick"))
+        for c, i in zip(ncs, common.run_impl(binary, ncs)):
+            mf = monitor_nested(c, i)
+            if mf:
+                chk.monitor_fail(mf[0], c, i, mf[1])
+        run_concurrent(chk, binary, rng.fork(), "quick")
         sc = stat_cases(rng, "quick")
         so = common.run_impl(binary, [c for c, _ in sc])
         for (c, name), o in zip(sc, so):
@@ -507,6 +845,20 @@ def replay(chk, path):
         elif tag == "c20":
             model = common.run_model([c])[0]
             mf, cm = monitor(c, impl), compare(c, model, impl)
+            print("case=%s\n  model=%s\n  impl=%s\n  monitor=%s compare=%s" % (c, model, impl, mf, cm))
+            bad += 1 if (mf or cm) else 0
+        elif tag == "c20N":
+            model = common.run_model([c])[0]
+            mf, cm = monitor_nested(c, impl), compare_nested(c, model, impl)
+            print("case=%s\n  model=%s\n  impl=%s\n  monitor=%s compare=%s" % (c, model, impl, mf, cm))
+            bad += 1 if (mf or cm) else 0
+        elif tag == "c20G":
+            mf = monitor_conc(c, impl)
+            print("case=%s\n  impl=%s\n  monitor=%s" % (c, impl, mf))
+            bad += 1 if mf else 0
+        elif tag == "c20Q":
+            model = common.run_model([c])[0]
+            mf, cm = monitor_seq(c, impl), compare_seq(c, model, impl)
             print("case=%s\n  model=%s\n  impl=%s\n  monitor=%s compare=%s" % (c, model, impl, mf, cm))
             bad += 1 if (mf or cm) else 0
         elif tag in ("heap", "heapraw", "heapinit"):
